@@ -82,7 +82,8 @@ Theorem match_path_iff_select : forall D p n,
 Proof. exact match_path_iff. Qed.
 Print Assumptions match_path_iff_select.
 
-(** C09 under the exact syntactic guard: unions of paths in which no '/' stands to the left of a '//'. *)
+(** C09 under the syntactic guard: unions of paths in which no '/' stands to the left of a '//', except
+    the leading '/' of an absolute path. *)
 Theorem match_iff_select_partial : forall D P n,
   wf_doc D = true -> wf_pattern P -> guard P = true -> n < length D ->
   (matches D P n = true <->
@@ -103,19 +104,16 @@ Theorem match_iff_select_concrete : forall D P n,
 Proof. exact c_match_iff_select. Qed.
 Print Assumptions match_iff_select_concrete.
 
-(** Outside the guard the full statement is false for the code as it is. *)
-Theorem match_iff_select_refuted_pos : exists P D n,     (* K14: /a//b on <x><a><b/></a></x> *)
-  wf_doc D = true /\ wf_pattern P /\ n < length D /\
-  matches D P n = true /\ ~ selects D P n.
-Proof.
-  exists k14_pat, k14_doc, 3. destruct k14_facts as [W [M [S _]]].
-  split; [exact W|]. split.
-  - intros p [E|[]]. subst p. split; [|reflexivity]. repeat constructor.
-  - split; [vm_compute; auto|]. split; [exact M|].
-    intro H. apply selectsb_spec in H. rewrite S in H. discriminate.
-Qed.
-Print Assumptions match_iff_select_refuted_pos.
+(** One direction needs no guard at all: whatever pattern, whenever the matcher says "match" some
+    ancestor-or-self context selects the node (there are no false positives). *)
+Theorem match_sound : forall D P n,
+  wf_doc D = true -> wf_pattern P -> n < length D ->
+  matches D P n = true -> selects D P n.
+Proof. exact matches_sound. Qed.
+Print Assumptions match_sound.
 
+(** Outside the guard the converse is false for the code as it is: the nearest-ancestor choice never
+    backtracks. *)
 Theorem match_iff_select_refuted_neg : exists P D n,     (* K15: c/a//b on <c><a><y><a><b/></a></y></a></c> *)
   wf_doc D = true /\ wf_pattern P /\ n < length D /\
   matches D P n = false /\ selects D P n.
@@ -127,9 +125,12 @@ Proof.
 Qed.
 Print Assumptions match_iff_select_refuted_neg.
 
-(** Both witnesses are outside the guard (so the partial theorem is not contradicted), *)
-Example refutations_outside_guard : guard k14_pat = false /\ guard k15_pat = false.
-Proof. split; [apply k14_facts|apply k15_facts]. Qed.
+(** The witness is outside the guard (so the partial theorem is not contradicted); the former K14
+    witness /a//b on <x><a><b/></a></x> is inside it and is decided correctly. *)
+Example refutation_outside_guard : guard k15_pat = false.
+Proof. apply k15_facts. Qed.
+Example k14_repaired : guard k14_pat = true /\ matches k14_doc k14_pat 3 = false /\ selectsb k14_doc k14_pat 3 = false.
+Proof. destruct k14_facts as [_ [M [S G]]]. auto. Qed.
 
 (** and the hypotheses of the partial theorem are satisfiable with non-trivial outcomes:
     a[@x]//b[position() = last()][1] | //c/@y   on   <a x=""><b/><d><b/><b/></d><c y=""/></a>
